@@ -457,9 +457,28 @@ func cmdCheck(args []string) int {
 	raceFiles := map[string]bool{}
 	seenPair := map[string]bool{}
 	const maxRaceReplays = 8
+	slowReplays := 0
 	for _, v := range allV {
 		path, ok := fileOf[v]
 		if !ok {
+			continue
+		}
+		if v.Kind == "deadlock" || (v.Kind == "panic" && strings.HasPrefix(v.Msg, "hang:")) {
+			// a blocked or spinning native run costs a whole test timeout:
+			// replay one candidate per harness and blocking description, four at most
+			dk := v.Harness + "|" + v.Msg
+			if len(dk) > 140 {
+				dk = dk[:140]
+			}
+			if seenPair[dk] || slowReplays >= 4 {
+				delete(fileOf, v)
+				os.Remove(path)
+				skippedRace++
+				continue
+			}
+			seenPair[dk] = true
+			slowReplays++
+			plainFiles = append(plainFiles, path)
 			continue
 		}
 		if v.Kind != "race" {
@@ -544,7 +563,13 @@ func cmdCheck(args []string) int {
 		var again []string
 		for _, v := range allV {
 			path, ok := fileOf[v]
-			if !ok || v.Kind == "race" || !strings.Contains(v.Trace, "maporder") {
+			if !ok || v.Kind == "race" || v.Kind == "deadlock" {
+				continue
+			}
+			// candidates that chose a map order get 12 attempts, any other
+			// unconfirmed one (the real code may range over a map the harness
+			// did not flag) gets 6
+			if !strings.Contains(v.Trace, "maporder") && attempt >= 6 {
 				continue
 			}
 			if !isConfirmed(v, results[path]) {
@@ -565,7 +590,7 @@ func cmdCheck(args []string) int {
 	}
 	violations, unconfirmed := 0, 0
 	if skippedRace > 0 {
-		fmt.Fprintf(os.Stderr, "%d race candidates share a racing pair with a replayed one (or exceed the replay cap) and were not replayed separately\n", skippedRace)
+		fmt.Fprintf(os.Stderr, "%d race, deadlock or hang candidates share their pair / blocking description with a replayed one (or exceed the replay cap) and were not replayed separately\n", skippedRace)
 	}
 	knownHit := map[string]bool{}
 	var vioSamples []interface{}
